@@ -241,9 +241,38 @@ func (l *loader) loadNodeInterface(pNodeInt *acmelibv1.NodeInterface) (*NodeInte
 		if err := nodeInt.AddSentMessage(msg); err != nil {
 			return nil, err
 		}
+
+		// the receivers are added once the sender is known,
+		// so that an interface cannot receive a message it sends
+		if err := l.loadMessageReceivers(msg, pMsg.Receivers); err != nil {
+			return nil, err
+		}
 	}
 
 	return nodeInt, nil
+}
+
+func (l *loader) loadMessageReceivers(msg *Message, pReceivers []*acmelibv1.MessageReceiver) error {
+	for _, pRec := range pReceivers {
+		recNode, ok := l.refNodes[pRec.NodeEntityId]
+		if !ok {
+			return &EntityIDError{
+				EntityID: EntityID(pRec.NodeEntityId),
+				Err:      ErrNotFound,
+			}
+		}
+
+		recNodeInt, err := recNode.GetInterface(int(pRec.NodeInterfaceNumber))
+		if err != nil {
+			return err
+		}
+
+		if err := msg.AddReceiver(recNodeInt); err != nil {
+			return err
+		}
+	}
+
+	return nil
 }
 
 func (l *loader) loadSignalPayload(pSigPayload *acmelibv1.SignalPayload) map[string]int {
@@ -322,23 +351,6 @@ func (l *loader) loadMessage(pMsg *acmelibv1.Message) (*Message, error) {
 
 	if pMsg.StartDelayTime != 0 {
 		msg.SetStartDelayTime(int(pMsg.StartDelayTime))
-	}
-
-	for _, pRec := range pMsg.Receivers {
-		recNode, ok := l.refNodes[pRec.NodeEntityId]
-		if !ok {
-			return nil, &EntityIDError{
-				EntityID: EntityID(pRec.NodeEntityId),
-				Err:      ErrNotFound,
-			}
-		}
-
-		recNodeInt, err := recNode.GetInterface(int(pRec.NodeInterfaceNumber))
-		if err != nil {
-			return nil, err
-		}
-
-		msg.AddReceiver(recNodeInt)
 	}
 
 	for _, pAttAss := range pMsg.AttributeAssignments {
